@@ -1,6 +1,40 @@
 """C05 — each transmission reported once, in order; repeats suppressed only in-window.  Theorems: coq/Properties/C05.v."""
-import vlib, asmlib, txscen, txoracle
+import vlib, asmlib, rxlib, samegen, txscen, txoracle
 from props import C02 as base
+
+
+def audio_repeats(ctx, rng, n):
+    """the same header transmitted three times through the REAL receiver (so that the assembler's clock is the squelch's symbol
+    counter, not the harness's): the second transmission inside the duplicate window of the first report (suppressed), the third
+    beginning more than 12 s after that report (reported again).  Tick-trace replay through the model + the property's count."""
+    cases = []
+    for j in range(n):
+        rate = rng.choice([8000, 11025] if j % 3 else [22050])
+        H = samegen.gen_header(rng, nloc=rng.choice([1, 2]))
+        tx = rxlib.Tx(rng, H=H, rate=rate, impaired=False)
+        hdr3 = ",".join("B%s,S%.2f" % (rxlib.burst_hex(H), g) for g in (1.0, 1.0))
+        hdr3 = "B%s,S1.00,B%s,S1.00,B%s" % ((rxlib.burst_hex(H),) * 3)
+        gap1 = 1.5 + rng.below(20) / 10.0          # second transmission well inside the window
+        gap2 = 14.0 - gap1 + rng.below(30) / 10.0  # third transmission begins > 12 s after the first report
+        script = "S0.30,%s,S%.2f,%s,S%.2f,%s,S3.00" % (hdr3, gap1, hdr3, gap2, hdr3)
+        cases.append((tx, H, tx.line(script=script)))
+    res = rxlib.run_rx([c[2] for c in cases])
+    ok = 0
+    for (tx, H, line), r in zip(cases, res):
+        if r.get("error"):
+            ctx.violation("harness-failure", r["error"][:200], {"input": line}); continue
+        if r["model"] != r["impl"]:
+            ctx.violation("correspondence", "receiver model replay differs from the implementation's events (repeated transmissions)",
+                          {"input": line, "model": (r["model"] or "")[:2500], "impl": r["impl"][:2500]})
+        ev = rxlib.parse_events(r["impl"])
+        soms = [e for e in ev if e["kind"] == "som"]
+        if len(soms) != 2 or any(e["text"] != H for e in soms):
+            ctx.violation("property", "the same header transmitted three times (second inside the 10.86 s window of the first report, third "
+                          "beginning more than 12 s after it) gave %d StartOfMessage report(s), expected 2 (first and third)" % len(soms),
+                          {"input": line, "events": r["impl"][:3000]})
+        else:
+            ok += 1
+    return ok
 
 LEVEL = "proof"
 ASSUMPTIONS = [
@@ -18,6 +52,7 @@ def run(ctx):
            + txscen.repeats(rng, 80 if quick else 1000) + txscen.stale_history(rng, 40 if quick else 400)
            + txscen.many_repeats(rng, 20 if quick else 100))
     mism, fam, nontriv, samples = base.run_family(ctx, "C05", txoracle.check_c05, scs, rng)
+    ctx.coverage["audio_repeat_scenarios_ok"] = audio_repeats(ctx, rng.fork("audio"), 3 if quick else 24)
     ctx.coverage.update({
         "evaluations": len(scs), "distinct_nontrivial": nontriv,
         "rule": "burst-arrival histories over 1..2 transmissions (header A, header B, trailer): every mask, pauses 0.95/1.0/1.05 s, "
